@@ -13,6 +13,8 @@
 #include <tbox/jsonrpc/protos/raw_stream_proto.h>
 #include <tbox/jsonrpc/protos/packet_proto.h>
 #include <tbox/jsonrpc/rpc.h>
+#include <tbox/util/json.h>
+#include <climits>
 
 using tbox::Json;
 using namespace tbox::jsonrpc;
@@ -30,12 +32,103 @@ static std::shared_ptr<Proto> newProto(const Kind &k) {
     }
 }
 
-// one onRecvData call on an exact-size heap copy: any read past data_size is seen by ASan
+// one onRecvData call on a heap copy that ends exactly at the end of its block (any read past
+// data_size is seen by ASan) and starts at every alignment 0..7 in turn
 static ssize_t recvExact(Proto *p, const std::string &buf) {
+    static unsigned turn = 0;
+    size_t off = (turn++) & 7;
     size_t n = buf.size();
-    std::unique_ptr<char[]> mem(new char[n ? n : 1]);
-    if (n) memcpy(mem.get(), buf.data(), n);
-    return p->onRecvData(mem.get(), n);
+    std::unique_ptr<char[]> mem(new char[off + n ? off + n : 1]);
+    if (n) memcpy(mem.get() + off, buf.data(), n);
+    return p->onRecvData(mem.get() + off, n);
+}
+
+// Rpc::id_alloc_ is private; an explicit instantiation may name it (test-only: the `jump` op)
+template <typename Tag, typename Tag::type M> struct Rob { friend typename Tag::type robGet(Tag) { return M; } };
+struct RpcIdAlloc { typedef int Rpc::*type; friend type robGet(RpcIdAlloc); };
+template struct Rob<RpcIdAlloc, &Rpc::id_alloc_>;
+static int &idAllocOf(Rpc &r) { return r.*robGet(RpcIdAlloc()); }
+
+// ------------------------------------------------------------------ JSON value descriptions (no spaces)
+//  n t f | d (1.5) D (1.0) | i<int literal> | s<hex of printable ASCII> | [v,v,…] | {<hexkey>:v,…}
+struct Desc {
+    const std::string &src; size_t pos = 0; bool ok = true; std::string text;
+    explicit Desc(const std::string &s) : src(s) {}
+    static bool printable(const std::string &b) { for (unsigned char c : b) if (c < 0x20 || c > 0x7e) return false; return true; }
+    static std::string quote(const std::string &b) {
+        std::string o = "\"";
+        for (char c : b) { if (c == '"' || c == '\\') o.push_back('\\'); o.push_back(c); }
+        return o + "\"";
+    }
+    std::string hexrun() { size_t b = pos; while (pos < src.size() && ((src[pos] >= '0' && src[pos] <= '9') || (src[pos] >= 'a' && src[pos] <= 'f'))) ++pos; return src.substr(b, pos - b); }
+    bool str(std::string &out) { std::vector<uint8_t> d; std::string h = hexrun(); if (h.size() % 2 || !vh::unhex(h.empty() ? "-" : h, d)) return false;
+        out.assign(d.begin(), d.end()); return printable(out); }
+    void value(int depth) {
+        if (!ok) return;
+        if (depth > 16 || pos >= src.size()) { ok = false; return; }
+        char c = src[pos++];
+        switch (c) {
+            case 'n': text += "null"; return;
+            case 't': text += "true"; return;
+            case 'f': text += "false"; return;
+            case 'd': text += "1.5"; return;
+            case 'D': text += "1.0"; return;
+            case 'i': { size_t b = pos; if (pos < src.size() && src[pos] == '-') ++pos;
+                        while (pos < src.size() && src[pos] >= '0' && src[pos] <= '9') ++pos;
+                        std::string lit = src.substr(b, pos - b);
+                        if (!jsonIntLit(lit)) { ok = false; return; } text += lit; return; }
+            case 's': { std::string b; if (!str(b)) { ok = false; return; } text += quote(b); return; }
+            case '[': { text += "[";
+                        if (pos < src.size() && src[pos] == ']') { ++pos; text += "]"; return; }
+                        for (;;) { value(depth + 1); if (!ok) return;
+                                   if (pos < src.size() && src[pos] == ',') { ++pos; text += ","; continue; }
+                                   if (pos < src.size() && src[pos] == ']') { ++pos; text += "]"; return; }
+                                   ok = false; return; } }
+            case '{': { text += "{"; std::vector<std::string> keys;
+                        if (pos < src.size() && src[pos] == '}') { ++pos; text += "}"; return; }
+                        for (;;) { std::string k; if (!str(k)) { ok = false; return; }
+                                   for (auto &o : keys) if (o == k) { ok = false; return; }
+                                   keys.push_back(k);
+                                   if (pos >= src.size() || src[pos] != ':') { ok = false; return; }
+                                   ++pos; text += quote(k) + ":"; value(depth + 1); if (!ok) return;
+                                   if (pos < src.size() && src[pos] == ',') { ++pos; text += ","; continue; }
+                                   if (pos < src.size() && src[pos] == '}') { ++pos; text += "}"; return; }
+                                   ok = false; return; } }
+            default: ok = false; return;
+        }
+    }
+    static bool jsonIntLit(const std::string &w) {
+        size_t i = (!w.empty() && w[0] == '-') ? 1 : 0; size_t nd = w.size() - i;
+        if (nd == 0 || nd > 25) return false;
+        if (nd > 1 && w[i] == '0') return false;
+        if (i == 1 && nd == 1 && w[1] == '0') return false;
+        return true;
+    }
+    // whole string must be one value
+    static bool parse(const std::string &s, std::string &text) {
+        if (s.size() > 4000) return false;
+        Desc d(s); d.value(0);
+        if (!d.ok || d.pos != s.size()) return false;
+        text = d.text; return true;
+    }
+};
+static std::string hexk(const std::string &k) { return k.empty() ? std::string() : vh::hex(k); }
+// canonical rendering of a parsed value, same grammar (floats: d; object keys in std::map order)
+static std::string canon(const Json &j) {
+    switch (j.type()) {
+        case Json::value_t::null: return "n";
+        case Json::value_t::boolean: return j.get<bool>() ? "t" : "f";
+        case Json::value_t::number_unsigned: return "i" + std::to_string(j.get<uint64_t>());
+        case Json::value_t::number_integer: return "i" + std::to_string(j.get<int64_t>());
+        case Json::value_t::number_float: return "d";
+        case Json::value_t::string: return "s" + hexk(j.get<std::string>());
+        case Json::value_t::array: { std::string o = "["; bool first = true;
+            for (auto &x : j) { if (!first) o += ","; first = false; o += canon(x); } return o + "]"; }
+        case Json::value_t::object: { std::string o = "{"; bool first = true;
+            for (auto it = j.begin(); it != j.end(); ++it) { if (!first) o += ","; first = false; o += hexk(it.key()) + ":" + canon(it.value()); }
+            return o + "}"; }
+        default: return "?";
+    }
 }
 
 static std::string dumpHex(const Json &j) { return vh::hex(j.dump()); }
@@ -123,6 +216,76 @@ struct Framing {
         return g;
     }
 
+    static std::string frameOfKind(const Kind &kind, const std::string &text) {
+        std::string bytes;
+        if (kind.k == 'H') {
+            uint16_t m = kind.magic; uint32_t l = (uint32_t)text.size();
+            bytes.push_back((char)(m >> 8)); bytes.push_back((char)(m & 0xff));
+            bytes.push_back((char)(l >> 24)); bytes.push_back((char)(l >> 16)); bytes.push_back((char)(l >> 8)); bytes.push_back((char)l);
+        }
+        return bytes + text;
+    }
+    // encoder -> decoder round trip on the real code for every text length lo..hi, three message kinds each
+    // (request / result / error whose variable part is a padded string), every message followed by a small
+    // second one so that a desynchronised stream shows
+    static void lenSweep(const Kind &k, size_t lo, size_t hi) {
+        std::shared_ptr<Proto> tx = newProto(k);
+        std::vector<std::string> outs;
+        tx->setSendCallback([&outs](const void *p, size_t n) { outs.push_back(std::string((const char *)p, n)); });
+        const size_t over = k.k == 'H' ? 6 : 0;
+        size_t count = 0; std::string bad = "-";
+        const size_t base[3] = { Json({{"jsonrpc", "2.0"}, {"method", "m"}, {"id", 1}, {"params", ""}}).dump().size(),
+                                 Json({{"jsonrpc", "2.0"}, {"id", 1}, {"result", ""}}).dump().size(),
+                                 Json({{"jsonrpc", "2.0"}, {"id", 1}, {"error", {{"code", 5}, {"message", "x"}}}}).dump().size() - 1 };
+        for (size_t L = lo; L <= hi && bad == "-"; ++L) {
+            for (int kind = 0; kind < 3 && bad == "-"; ++kind) {
+                ++count;
+                size_t padn = L > base[kind] ? L - base[kind] : 0;
+                if (kind == 2 && padn == 0) padn = 1;        // sendError omits an empty message
+                std::string pad(padn, 'a');
+                if (padn > 2) { pad[padn / 2] = '}'; pad[padn - 1] = ']'; }     // brackets inside the string
+                outs.clear();
+                if (kind == 0) { tx->sendRequest(1, "m", Json(pad)); tx->sendRequest(2, "n"); }
+                else if (kind == 1) { tx->sendResult(1, Json(pad)); tx->sendResult(2, Json(7)); }
+                else { tx->sendError(1, 5, pad); tx->sendError(2, 6); }
+                std::string why;
+                size_t want = std::max(L, base[kind] + (kind == 2 ? 1 : 0));
+                if (outs.size() != 2) why = "frames=" + std::to_string(outs.size());
+                else if (outs[0].size() != over + want) why = "frame-size=" + std::to_string(outs[0].size());
+                else {
+                    struct G { int n = 0; char type = 0; int id = 0, ec = 0; std::string method; Json js; } g[2]; int gi = 0;
+                    std::shared_ptr<Proto> rx = newProto(k);
+                    rx->setRecvCallback(
+                        [&](int id, const std::string &m, const Json &params) { if (gi < 2) { g[gi].n++; g[gi].type = 'q'; g[gi].id = id; g[gi].method = m; g[gi].js = params; } ++gi; },
+                        [&](int id, int ec, const Json &res) { if (gi < 2) { g[gi].n++; g[gi].type = 's'; g[gi].id = id; g[gi].ec = ec; g[gi].js = res; } ++gi; });
+                    if (k.k == 'P') {
+                        for (int i = 0; i < 2 && why.empty(); ++i) {
+                            ssize_t r = recvExact(rx.get(), outs[i]);
+                            if (r != (ssize_t)outs[i].size()) why = "ret" + std::to_string(i) + "=" + std::to_string(r);
+                        }
+                    } else {
+                        std::string buf = outs[0] + outs[1];
+                        for (int i = 0; i < 2 && why.empty(); ++i) {
+                            ssize_t r = recvExact(rx.get(), buf);
+                            if (r != (ssize_t)outs[i].size()) why = "ret" + std::to_string(i) + "=" + std::to_string(r);
+                            else buf.erase(0, r);
+                        }
+                        if (why.empty() && !buf.empty()) why = "left=" + std::to_string(buf.size());
+                    }
+                    if (why.empty()) {
+                        bool ok = gi == 2 && g[0].id == 1 && g[1].id == 2;
+                        if (kind == 0) ok = ok && g[0].type == 'q' && g[0].method == "m" && g[0].js == Json(pad) && g[1].type == 'q' && g[1].method == "n";
+                        else if (kind == 1) ok = ok && g[0].type == 's' && g[0].ec == 0 && g[0].js == Json(pad) && g[1].js == Json(7);
+                        else ok = ok && g[0].type == 's' && g[0].ec == 5 && g[1].ec == 6;
+                        if (!ok) why = "decoded=" + std::to_string(gi);
+                    }
+                }
+                if (!why.empty()) bad = std::to_string(L) + ":" + "qre"[kind] + ":" + why;
+            }
+        }
+        say("P lensweep n=" + std::to_string(count) + " bad=" + bad);
+    }
+
     bool op(const std::vector<std::string> &w) {
         size_t s = 0; int id = 0, code = 0; std::string a, b; uint64_t n = 0;
         if (w[0] == "open" && w.size() >= 3 && slot(w[1], s)) {
@@ -203,6 +366,60 @@ struct Framing {
             bytes += text;
             st[s]->feed({bytes});
             return true;
+        }
+        if (w[0] == "lensweep" && w.size() == 4 && slot(w[1], s)) {
+            uint64_t lo = 0, hi = 0;
+            if (!st[s] || !vh::to_u64(w[2], lo) || !vh::to_u64(w[3], hi) || lo > hi || hi > 20000000 || hi - lo > 100000) return false;
+            lenSweep(st[s]->kind, (size_t)lo, (size_t)hi);
+            return true;
+        }
+        if (w[0] == "pj" && w.size() == 3 && slot(w[1], s)) {
+            std::string text;
+            if (!st[s] || !Desc::parse(w[2], text) || (text[0] != '[' && text[0] != '{')) return false;
+            std::vector<std::string> cbs;
+            std::shared_ptr<Proto> p = newProto(st[s]->kind);
+            p->setRecvCallback(
+                [&cbs](int id, const std::string &m, const Json &params) {
+                    cbs.push_back("q:" + std::to_string(id) + ":" + vh::hex(m) + ":" + canon(params)); },
+                [&cbs](int id, int ec, const Json &res) {
+                    cbs.push_back("s:" + std::to_string(id) + ":" + std::to_string(ec) + ":" + canon(res)); });
+            std::string bytes = frameOfKind(st[s]->kind, text);
+            ssize_t r = recvExact(p.get(), bytes);
+            std::string out = "P pj " + (r == (ssize_t)bytes.size() ? std::string("ok") : "r=" + std::to_string(r));
+            for (auto &c : cbs) out += " " + c;
+            say(out);
+            return true;
+        }
+        if ((w[0] == "gf" || w[0] == "hf") && w.size() == 4 && w[1].size() == 1) {
+            std::string text, key; Desc kd(w[3]);
+            if (!Desc::parse(w[2], text)) return false;
+            if (w[3] != "-" && (!kd.str(key) || kd.pos != w[3].size())) return false;
+            Json js = Json::parse(text);
+            using namespace tbox::util::json;
+            if (w[0] == "hf") {
+                bool r;
+                switch (w[1][0]) {
+                    case 'o': r = HasObjectField(js, key); break;
+                    case 'a': r = HasArrayField(js, key); break;
+                    case 'b': r = HasBooleanField(js, key); break;
+                    case 'n': r = HasNumberField(js, key); break;
+                    case 'f': r = HasFloatField(js, key); break;
+                    case 'i': r = HasIntegerField(js, key); break;
+                    case 'u': r = HasUnsignedField(js, key); break;
+                    case 's': r = HasStringField(js, key); break;
+                    default: return false;
+                }
+                say(std::string("P hf ") + (r ? "1" : "0"));
+                return true;
+            }
+            switch (w[1][0]) {
+                case 'b': { bool v = true; bool r = GetField(js, key, v); say(std::string("P gf ") + (r ? "1 " : "0 ") + (v ? "t" : "f")); return true; }
+                case 'u': { unsigned int v = 7; bool r = GetField(js, key, v); say(std::string("P gf ") + (r ? "1 " : "0 ") + std::to_string(v)); return true; }
+                case 'i': { int v = -7; bool r = GetField(js, key, v); say(std::string("P gf ") + (r ? "1 " : "0 ") + std::to_string(v)); return true; }
+                case 'd': { double v = 7.25; bool r = GetField(js, key, v); say(std::string("P gf ") + (r ? "1 " : "0 ") + (v == 7.25 ? "old" : "d")); return true; }
+                case 's': { std::string v = "old"; bool r = GetField(js, key, v); say(std::string("P gf ") + (r ? "1 s" : "0 s") + hexk(v)); return true; }
+                default: return false;
+            }
         }
         return false;
     }
@@ -310,17 +527,30 @@ struct Peer {
     bool keep_out = false;
     int n_tag = 0, n_rsp = 0;
     bool dead = false;                  // cleanup() was called
+    bool sync_armed = false; int sync_code = 0;   // reqsync: the transport answers the next request frame from inside the send callback
 
     Peer(const Kind &k, tbox::event::Loop *loop, int n, const Prog *pg, bool keep) : kind(k), prog(pg), keep_out(keep) {
         proto = newProto(k);
         rpc.reset(new Rpc(loop));
         rpc->initialize(proto.get(), n);
+        installSend();
+    }
+    void installSend() {
         proto->setSendCallback([this](const void *p, size_t sz) {
             std::string bytes((const char *)p, sz);
             evs.push_back(describe(bytes));
             if (keep_out) outq.push_back(bytes);
+            if (sync_armed) {
+                auto g = Framing::decodeFresh(kind, bytes);
+                if (g.n == 1 && g.type == 'q' && g.id != 0) {
+                    sync_armed = false;
+                    feed(rspFrame(kind, std::to_string(g.id), sync_code));      // re-enters the Rpc below request()
+                }
+            }
         });
     }
+    // transport down: no send callback at all (the protos then drop what they are asked to send)
+    void tx(bool on) { if (on) installSend(); else proto->setSendCallback(nullptr); }
     Peer(const Peer &) = delete;
     ~Peer() {
         if (!dead) rpc->cleanup();
@@ -337,7 +567,7 @@ struct Peer {
     void misuse() { evs.push_back("misuse"); }
 
     void request(int script, int m) {
-        if (dead) { misuse(); return; }
+        if (dead || idAllocOf(*rpc) == INT_MAX) { misuse(); return; }    // null proto_ / ++id_alloc_ would overflow: never executed
         int tag = n_tag++;
         Peer *self = this; Pad pad = {{0, 0, 0}};
         rpc->request("m" + std::to_string(m), Json::array({1}), [self, tag, script, pad](int ec, const Json &) {
@@ -410,6 +640,18 @@ struct Peer {
             return false;
         }
         if (c == "cleanup" && n == 1) { cleanup(); return true; }
+        if (c == "jump" && n == 2 && !keep_out) {
+            uint64_t v; if (w[o + 1].size() > 10 || !vh::to_u64(w[o + 1], v) || v > (uint64_t)INT_MAX) return false;
+            idAllocOf(*rpc) = (int)v; return true;
+        }
+        if (c == "tx" && n == 2 && !keep_out && (w[o + 1] == "on" || w[o + 1] == "off")) { if (!dead) tx(w[o + 1] == "on"); return true; }
+        if (c == "reqsync" && n == 4 && !keep_out && natLe(w[o + 1], 99, a) && natLe(w[o + 2], 7, b)) {
+            int code; if (!i32(w[o + 3], code)) return false;
+            sync_armed = true; sync_code = code;
+            request(a, b);
+            sync_armed = false;
+            return true;
+        }
         return false;
     }
     std::string take() {
@@ -423,7 +665,7 @@ struct Peer {
 
 static bool advOp(const std::vector<std::string> &w) {
     uint64_t ms = 0;
-    if (w[0] == "adv" && w.size() == 2 && vh::to_u64(w[1], ms) && ms <= 100000) { vt::advance_ms((int64_t)ms); return true; }
+    if (w[0] == "adv" && w.size() == 2 && w[1].size() <= 10 && vh::to_u64(w[1], ms) && ms <= 5000000000ULL) { vt::advance_ms((int64_t)ms); return true; }
     return false;
 }
 
@@ -508,6 +750,54 @@ static void runRpcCase(const Kind &k, int n, const std::vector<std::string> &ops
     runScripted(rc, ops);
 }
 
+// Two real Rpc objects joined by byte streams (datagrams for the packet framing): for every text length lo..hi+40 a
+// request of that size is answered by an echo service (so the response has about that size too), followed by a small
+// request; each completion callback must run exactly once with the echoed value.
+static void runRpcSweep(const Kind &k, size_t lo, size_t hi) {
+    tbox::event::Loop *loop = tbox::event::Loop::New();
+    {
+        std::shared_ptr<Proto> pa = newProto(k), pb = newProto(k);
+        Rpc a(loop), b(loop);
+        a.initialize(pa.get(), 3); b.initialize(pb.get(), 3);
+        std::vector<std::string> ab, ba;
+        pa->setSendCallback([&ab](const void *p, size_t n) { ab.push_back(std::string((const char *)p, n)); });
+        pb->setSendCallback([&ba](const void *p, size_t n) { ba.push_back(std::string((const char *)p, n)); });
+        b.addService("m0", [](int, const Json &params, int &, Json &result) -> bool { result = params; return true; });
+        auto deliver = [&k](Proto *p, std::vector<std::string> &q) -> bool {
+            bool ok = true;
+            if (k.k == 'P') { for (auto &d : q) ok = ok && recvExact(p, d) == (ssize_t)d.size(); }
+            else {
+                std::string buf; for (auto &d : q) buf += d;
+                while (!buf.empty()) { ssize_t r = recvExact(p, buf); if (r <= 0 || (size_t)r > buf.size()) { ok = false; break; } buf.erase(0, r); }
+            }
+            q.clear();
+            return ok;
+        };
+        size_t count = 0; std::string bad = "-";
+        const size_t over = k.k == 'H' ? 6 : 0;
+        for (size_t L = lo; L <= hi + 40 && bad == "-"; ++L) {
+            ++count;
+            int id = idAllocOf(a) + 1;
+            size_t base = Json({{"jsonrpc", "2.0"}, {"method", "m0"}, {"id", id}, {"params", ""}}).dump().size();
+            std::string pad(L > base ? L - base : 0, 'a');
+            int f1 = 0, f2 = 0; bool ok1 = false, ok2 = false;
+            a.request("m0", Json(pad), [&](int ec, const Json &r) { ++f1; ok1 = ec == 0 && r == Json(pad); });
+            a.request("m0", Json("x"), [&](int ec, const Json &r) { ++f2; ok2 = ec == 0 && r == Json("x"); });
+            std::string why;
+            if (ab.size() != 2) why = "frames=" + std::to_string(ab.size());
+            else if (ab[0].size() != over + std::max(L, base)) why = "frame-size=" + std::to_string(ab[0].size());
+            else if (!deliver(pb.get(), ab)) why = "request-stream";
+            else if (ba.size() != 2) why = "answers=" + std::to_string(ba.size());
+            else if (!deliver(pa.get(), ba)) why = "response-stream";
+            else if (f1 != 1 || f2 != 1 || !ok1 || !ok2) why = "fired=" + std::to_string(f1) + "," + std::to_string(f2);
+            if (!why.empty()) bad = std::to_string(L) + ":" + why;
+        }
+        say("P rpcsweep n=" + std::to_string(count) + " bad=" + bad);
+        a.cleanup(); b.cleanup();
+    }
+    delete loop;
+}
+
 static void runCase(const std::vector<std::string> &lines) {
     size_t i = 0;
     Framing fr;
@@ -517,12 +807,20 @@ static void runCase(const std::vector<std::string> &lines) {
         if (w.empty()) continue;
         uint64_t n = 0;
         if (fresh && w[0] == "rpc" && w.size() == 3 && (w[1] == "H" || w[1] == "R" || w[1] == "P") &&
-            vh::to_u64(w[2], n) && n >= 1 && n <= 8) {
+            vh::to_u64(w[2], n) && n >= 1 && n <= 512) {
             Kind k; k.k = w[1][0]; k.magic = 0x3e5a;
             std::vector<std::string> rest;
             for (size_t j = i + 1; j < lines.size(); ++j) if (!vh::words(lines[j]).empty()) rest.push_back(lines[j]);
             runRpcCase(k, (int)n, rest);
             return;
+        }
+        uint64_t lo = 0, hi = 0;
+        if (fresh && w[0] == "rpcsweep" && w.size() == 4 && (w[1] == "H" || w[1] == "R" || w[1] == "P") &&
+            vh::to_u64(w[2], lo) && vh::to_u64(w[3], hi) && lo <= hi && hi <= 2000000 && hi - lo <= 100000) {
+            Kind k; k.k = w[1][0]; k.magic = 0x3e5a;
+            runRpcSweep(k, (size_t)lo, (size_t)hi);
+            fresh = false;
+            continue;
         }
         uint64_t nc = 0, ns = 0;
         if (fresh && w[0] == "world" && w.size() == 4 && (w[1] == "H" || w[1] == "R" || w[1] == "P") &&
